@@ -151,6 +151,7 @@ fn cmd_seq(args: &[String]) {
             let trace = s.inner.lock().unwrap().trace.clone();
             res.failures.extend(life::analyze(&trace, &[], &[]).into_iter().map(|f| format!("{} case {}", f, i)));
             res.failures.extend(life::lock_discipline(&trace).into_iter().map(|f| format!("{} case {}", f, i)));
+            res.failures.extend(life::unlocked_writes(&trace).into_iter().map(|f| format!("{} case {}", f, i)));
             for p in qalloc::take_double_frees() {
                 res.failures.push(format!("[double-free] case {}: block {:#x} was freed twice", i, p));
             }
@@ -367,6 +368,7 @@ fn cmd_conc(args: &[String]) {
                 }
             }
             println!("final: {:?}", r.final_contents);
+            println!("final-snap: {}", r.final_snap.chars().take(60).collect::<String>());
             println!("schedule: {:?}", r.outcome.schedule);
         }
         if only.is_some() {
